@@ -59,8 +59,9 @@ class Stats:
                                       {k: v for k, v in p0.items() if k not in ("kind", "tb")})
             self.violations.append(C.violation(pid, cs, out.problems, summ, kf))
         elif len(self.samples) < 2 and out.nontrivial:
-            self.samples.append({"yaml": cs.spec.yaml(), "extents": cs.extents,
-                                 "loops": len(ex.loops), "updates": ex.update_count,
+            self.samples.append({"yaml": cs.spec.yaml(), "extents": cs.extents, "mode": cs.mode,
+                                 "loops": len(ex.loops) if ex is not None else None,
+                                 "updates": ex.update_count if ex is not None else None,
                                  "text_head": out.compiled.text.splitlines()[:12]})
         return True
 
